@@ -109,6 +109,8 @@ def run(prop: str, tier: str, seed: int) -> int:
             rounds = rng.choice([1, 2, 2, 3])
             if k % 60 == 59:       # many teams (shipped instances have up to 40; 128+ changes the plan's dtype)
                 n = rng.choice([32, 34, 40] if tier == "quick" else [32, 34, 40, 64, 128, 130])
+                if k == 119:
+                    n = 128       # team ids -128..128 no longer fit 8 bits
                 rounds = rng.choice([1, 2]) if n <= 40 else 1
             hi = rng.choice([3, 10, 100, 5000])
             sym = rng.random() < 0.5
